@@ -13,6 +13,12 @@ reg(Prop('C11', [
     Stream('c11.sem', 6000, 150000, 'oracle', timeout=900),
     Stream('c11.conv', 2500, 60000, 'oracle', timeout=900),
     Stream('c11.misuse', 200, 5000, 'spec'),
+    Stream('c11.glue', 3000, 120000, 'model', timeout=900,
+           exhaustive='composed writer model UnitGlueWr (UnitWr x OpWr x ListsWr): every reference kind (call_ref, variable_value, implicit_pointer, call, parameter_ref, '
+                      'deref_type, nested in entry_value) to every entry before / at / after the holder, in an Exprloc attribute and in two location lists of two shapes, '
+                      'with RangeListRef / LocationListRef / DebugInfoRef / UnitRef attributes, x versions 2-5 x both formats x 2 address sizes / byte orders x 3 child arrangements '
+                      'x second unit absent / before / after (4036 cases); compared: .debug_info, .debug_ranges, .debug_rnglists, .debug_loc, .debug_loclists after Dwarf::write '
+                      'and the three resolved fix-up lists (offset:size:value) observed through a recording Writer'),
 ], level='proof', design_ref='§5 C11',
     clauses=['form_size_write_len', 'form_size_write_decodes', 'offsets_exact', 'refs_resolve', 'roundtrip', 'unit_roundtrip',
              'abbrev_codes', 'abbrev_dedup', 'strings_add', 'strings_shared', 'strings_offset',
